@@ -168,10 +168,12 @@ class Scenario:
         v = vec[idx] if idx < len(vec) else "A"
         self.call_idx += 1
         marks = umark(text) if kind == "in" else bmark(text)
-        self.shared.append(ev("act", a=idx, b={"A": 0, "R": 1, "W": 2, "F": 3}[v], s=kind,
+        self.shared.append(ev("act", a=idx, b={"A": 0, "R": 1, "W": 2, "F": 3, "G": 3}[v], s=kind,
                               m=marks if kind == "in" else (), n=marks if kind == "out" else ()))
         if v == "F":
             raise RuntimeError("scripted fault in rail %s %d" % (kind, idx))
+        if v == "G":
+            raise TimeoutError()       # an exception with an empty message (asyncio.wait_for, bare assert, ...)
         shape = self.cfg.get("shape", "tri")
         if shape == "tri":
             if v == "A":
@@ -356,6 +358,8 @@ def v2_rail(kind, idx, shape, exc):
         return "flow %s\n  global %s\n  if \"RJ%s%d\" in %s\n    abort\n" % (name, var, kind[0], idx, var)
     if shape == "check":
         return "flow %s\n  $allowed = await %s(idx=%d)\n  if not $allowed\n%s" % (name, act, idx, block)
+    if shape == "csilent":
+        return "flow %s\n  $allowed = await %s(idx=%d)\n  if not $allowed\n    abort\n" % (name, act, idx)
     if shape == "inv":
         return "flow %s\n  $bad = await %s(idx=%d)\n  if $bad\n%s" % (name, act, idx, block)
     raise ValueError(shape)
@@ -413,11 +417,13 @@ class Scenario2:
         vec = turn["inv"] if kind == "in" else turn["outv"]
         v = vec[idx] if idx < len(vec) else "A"
         marks = umark(text) if kind == "in" else bmark(text)
-        self.shared.append(("ev", ev("act", a=idx, b={"A": 0, "R": 1, "W": 2, "F": 3}[v], s=kind,
+        self.shared.append(("ev", ev("act", a=idx, b={"A": 0, "R": 1, "W": 2, "F": 3, "G": 3}[v], s=kind,
                                     m=marks if kind == "in" else (), n=marks if kind == "out" else ())))
         if v == "F":
             raise RuntimeError("scripted fault in rail %s %d" % (kind, idx))
-        if self.cfg["shape"] == "check":
+        if v == "G":
+            raise TimeoutError()
+        if self.cfg["shape"] in ("check", "csilent"):
             return v == "A"
         return v != "A"
 
